@@ -309,6 +309,52 @@ def run(chk):
             cs2.meta[ib]["compared_with"] = cs2.describe(ia) if kind != "same" else cs.describe(ia)
             cs2.meta[ib]["values"] = [a, b]
             viol.append((what, ib, cs2))
+    # stage 3: a fresh process in which a Cartesian world with every feature type is queried first and spherical worlds follow, whose
+    # features lie across the +-180 meridian and are written on either longitude branch: what a feature covers in the second
+    # world must not depend on the coordinate system of a world evaluated earlier in the process (model = oracle, bit for bit)
+    cs3 = CaseSet("c02c")
+    gg = Gen(rng)
+    rng.seed("%d/c02-4/0" % chk.seed)
+    first = {"version": "1.1", "features": []}
+    for k_ in ("continental plate", "oceanic plate", "mantle layer"):
+        ff = gg.area_feature(k_[:4], False, kinds=(k_,), centre=(0.0, 0.0), size=4e5, depth_arrays=0, water=0)
+        ff.pop("min depth", None)
+        ff["max depth"] = 3e5
+        first["features"].append(ff)
+    first["features"].append(gg.plume("pl", False, centre=(0.0, 0.0)))
+    s0 = cs3.add_world(first)
+    for _k in range(6):
+        d_ = float(round(rng.uniform(0.0, 2.5e5)))
+        cs3.p3(s0, (rng.uniform(-1e5, 1e5), rng.uniform(-1e5, 1e5), TOP - d_), d_, ALL)
+    from wbgen import cart_point as _cp
+    for wi in range(8 if chk.tier == "quick" else 60):
+        rng.seed("%d/c02-4/%d" % (chk.seed, wi + 1))
+        k_ = ("continental plate", "oceanic plate", "mantle layer", "plume")[wi % 4]
+        branch = (180.0, -180.0)[(wi // 4) % 2]
+        if k_ == "plume":
+            ff = gg.plume("pl", True, centre=(branch + rng.uniform(-3, 3), rng.uniform(-30, 30)))
+        else:
+            ff = gg.area_feature("a", True, kinds=(k_,), centre=(branch + rng.uniform(-4, 4), rng.uniform(-30, 30)), size=10.0, depth_arrays=0, water=0)
+            ff.pop("min depth", None)
+            ff["max depth"] = 3e5
+        wsp = {"version": "1.1", "coordinate system": {"model": "spherical", "depth method": "begin segment"}, "features": [ff]}
+        sl = cs3.add_world(wsp)
+        cx_ = ff["coordinates"][0][0] if k_ == "plume" else sum(c[0] for c in ff["coordinates"]) / len(ff["coordinates"])
+        cy_ = ff["coordinates"][0][1] if k_ == "plume" else sum(c[1] for c in ff["coordinates"]) / len(ff["coordinates"])
+        for _k in range(14):
+            d_ = float(round(rng.uniform(0.0, 2.5e5)))
+            cs3.p3(sl, _cp(True, cx_ + rng.uniform(-9, 9), cy_ + rng.uniform(-9, 9), d_, 6371000.0, TOP), d_, [[1, 0, 0], [2, 0, 0], [2, 1, 0], [4, 0, 0]])
+    impl3, model3 = cs3.run()
+    chk.evaluations += len(impl3)
+    bad3 = chk.correspond(impl3, model3, cs3, max_ulp=0)
+    if bad3 and not viol:
+        for i in bad3[:2]:
+            dsc = cs3.describe(i)
+            dsc["impl"], dsc["model"] = impl3[i], model3[i]
+            dsc["process"] = "a Cartesian world with every feature type was queried earlier in the same process"
+            viol.append(("what a feature covers depends on a world evaluated earlier in the process (answer %s, the fold over the covering features gives %s)"
+                         % (impl3[i][:60], model3[i][:60]), i, cs3))
+    cs3.cleanup()
     for pl in plan[:3]:
         chk.sample({"query": cs.probe[pl["full"][0]], "answer": impl[pl["full"][0]][:160]})
     for what, idx, c in viol[:5]:
